@@ -194,8 +194,10 @@ def check_print_overflow(prog, rep):
     from rules import chronolin as CL
     rep.rule('R14.7', 'time_point -> ISO text, every instantiated precision and representation: splitting into days / time of day and the era '
                       'arithmetic cause no signed overflow for any representable time point (or the value is refused with an exception first)', floor=5)
+    # the printer: To(const time_point&, basic_string&) of convert_chrono.h (the civil-from-days arithmetic may live in a helper it calls)
     fs = [f for f in prog.funcs.values() if f.body is not None and f.relfile.endswith('conversion_detail/convert_chrono.h') and f.name == 'To'
-          and len(f.params) == 2 and 'time_point' in f.tu['types'][f.params[0]['t']] and any(x.get('cv') == 719468 for x in f.walk())]
+          and len(f.params) == 2 and 'std::chrono::time_point<' in f.tu['types'][f.params[0]['t']]
+          and 'basic_string<' in f.tu['types'][f.params[1]['t']] and not f.tu['types'][f.params[1]['t']].startswith('const')]
     if not fs:
         raise AnalysisBroken('anchor vanished: To(time_point, string&) with the days -> civil date arithmetic')
     seen = set()
@@ -212,7 +214,7 @@ def check_print_overflow(prog, rep):
             fr.env[f.params[1]['d']] = TOP
         ev = {}
         n_paths = 0
-        for p in CL.run(prog, f, model, setup, max_paths=3000):
+        for p in CL.run(prog, f, model, setup, max_paths=3000, max_depth=2):
             n_paths += 1
             for a in p.actions:
                 if a[0] == 'OVERFLOW':
